@@ -829,6 +829,9 @@ func (fr *frame) havocLoop(li *loopInfo, st *State) {
 				}
 				c2 := fx.g.contractFor(callee)
 				if c2 == nil {
+					if fx.g.writesNothing(callee, 0) {
+						continue // an inlined helper that only builds new objects: nothing to havoc
+					}
 					panic(unsupported("call to function without contract inside a loop: " + callee.String()))
 				}
 				if c2.PanicKind == "always" {
@@ -1176,3 +1179,44 @@ func (fr *frame) loopContract(li *loopInfo) *LoopContract {
 }
 
 type havocRef struct{ leaf, addr string }
+
+// writesNothing: a function of the module without a contract (it is inlined at its call sites) whose body
+// stores only into objects it allocates itself and calls only builtins, functions with an empty write
+// set, or functions of the same kind.
+func (g *Gen) writesNothing(fn *ssa.Function, depth int) bool {
+	if fn == nil || len(fn.Blocks) == 0 || depth > 3 {
+		return false
+	}
+	for _, b := range fn.Blocks {
+		for _, in := range b.Instrs {
+			switch x := in.(type) {
+			case *ssa.Store:
+				root := addrRoot(x.Addr)
+				if _, isAlloc := root.(*ssa.Alloc); !isAlloc {
+					return false
+				}
+			case *ssa.MapUpdate, *ssa.Send, *ssa.Go, *ssa.Defer:
+				return false
+			case ssa.CallInstruction:
+				cc := x.Common()
+				if _, isB := cc.Value.(*ssa.Builtin); isB {
+					continue
+				}
+				callee := cc.StaticCallee()
+				if callee == nil {
+					return false
+				}
+				if c2 := g.contractFor(callee); c2 != nil {
+					if c2.Modifies != nil && len(c2.Modifies) == 0 {
+						continue
+					}
+					return false
+				}
+				if !g.writesNothing(callee, depth+1) {
+					return false
+				}
+			}
+		}
+	}
+	return true
+}
